@@ -34,7 +34,7 @@ def c19_witnesses(c):
 
     # 1. compiler verdicts (sequential: they share one target dir; each is a sub-second incremental build)
     for w in names:
-        p = subprocess.run(["cargo", "build", "--offline", "-q", "-p", "witnesses", "--bin", w, "--target-dir", os.path.join(H, "target")],
+        p = subprocess.run(["cargo", "build", "--offline", "-q", "-p", "witnesses", "--bin", w, "--target-dir", os.path.join(H, "target" + c["RUNTAG"])] + c["repo_args"](),
                            cwd=H, env=env, capture_output=True, text=True)
         codes = sorted(set(re.findall(r"error\[(E\d+)\]", p.stderr)))
         table[w] = dict(compiles=p.returncode == 0, error_codes=codes)
@@ -48,7 +48,7 @@ def c19_witnesses(c):
 
     def run_miri(w):
         p = subprocess.run(["cargo", "+nightly", "miri", "run", "-q", "--offline", "-p", "witnesses", "--bin", w,
-                            "--target-dir", os.path.join(H, "target-miri")], cwd=H, env=menv, capture_output=True, text=True, timeout=900)
+                            "--target-dir", os.path.join(H, "target-miri" + c["RUNTAG"])] + c["repo_args"](), cwd=H, env=menv, capture_output=True, text=True, timeout=900)
         ub = re.search(r"Undefined Behavior: ([^\n]*)", p.stderr)
         return w, p.returncode, (ub.group(1) if ub else None), p.stdout.strip()[-200:], p.stderr[-600:]
 
@@ -111,7 +111,7 @@ def c18_miri_probe(c):
     res = dict(evaluations=0, distinct=0, counters={}, maxima={}, violations=[], violation_counts={}, samples=[], inconclusive=[])
     try:
         p = subprocess.run(["cargo", "+nightly", "miri", "run", "-q", "--offline", "-p", "dv", "--no-default-features",
-                            "--target-dir", os.path.join(H, "target-miri"), "--", "C18probe"], cwd=H, env=env,
+                            "--target-dir", os.path.join(H, "target-miri" + c["RUNTAG"])] + c["repo_args"]() + ["--", "C18probe"], cwd=H, env=env,
                            capture_output=True, text=True, timeout=3000)
     except subprocess.TimeoutExpired:
         res["inconclusive"].append("Miri schedule probe timed out")
